@@ -58,6 +58,7 @@ CLASS_KINDS = {
     "missing-options": {"missing-options"},
     "forbidden-row-kind": {"row-kind-forbidden"},
     "triple-outside-graph": {"triple-outside-graph"},
+    "graph-start-without-term": {"graph-start-without-term"},
     "unsupported-version": {"bad-version"},
     "unsupported-physical-type": {"bad-physical-type"},
     "unsupported-version-in-repeated-options": {"options-changed"},
@@ -253,6 +254,8 @@ def mutants(stream: Stream, opt: dict, rng):
                 # a graph_end in front of this triple leaves it outside any graph
                 yield "triple-outside-graph", (fi, ri + 1), None, stream.inserted(fi, ri, ("graph_end", {}))
         if kind == "graph_start":
+            # a graph start that names no graph at all (the oneof is unset): the format has no "same graph as before" for it
+            yield "graph-start-without-term", (fi, ri), ["g"], stream.replaced(fi, ri, (kind, set_path(body, ["g"], None)))
             # dropping the graph start leaves the following triple outside a graph
             nxt = _next_row(stream, fi, ri)
             if nxt is not None and nxt[2][0] == "triple":
